@@ -119,6 +119,13 @@ def run_case(n, adj, root, rng, agree, draws, sigma_scale):
     out[...] = np.nan
     again = move_mol_atom(pos, table, atom_index=root - 1, displ=displ.copy(), sigma_scale=sigma_scale)
     intact = intact and bool(np.array_equal(again, first))
+    # a result the caller holds is not touched by later calls (another displacement, same sizes), and a configuration
+    # handed over as a view of an earlier result is an input like any other: it is left as it was
+    other = move_mol_atom(pos, table, atom_index=root - 1, displ=displ * 2 + 0.0625, sigma_scale=sigma_scale)
+    intact = intact and bool(np.array_equal(again, first)) and other is not again
+    view = again[:]
+    chained = move_mol_atom(view, table, atom_index=root - 1, displ=displ.copy() + 0.03125, sigma_scale=sigma_scale)
+    intact = intact and bool(np.array_equal(again, first)) and bool(np.array_equal(chained[root - 1], first[root - 1] + (displ + 0.03125)))
     if n > 1 and adj[root - 1]:
         scale = float(rng.choice([0.5, 1.7]))
         for a in list(table.keys()):
